@@ -363,7 +363,7 @@ func addSyncHooks(h map[string]hookFn) {
 	}
 	cas := func(i *interpreter, fr *frame, fn *ssa.Function, args []value) value {
 		p := ptr(args[0])
-		if i.truth(i.binop(token.EQL, nil, *p, args[1])) {
+		if i.truth(i.binop(token.EQL, fn.Signature.Params().At(1).Type(), *p, args[1])) {
 			*p = args[2]
 			return true
 		}
